@@ -81,8 +81,9 @@ def coq_case(c, o):
     return "((%s,%s),%s)" % (tg.cq_batches(c), tg.cq_list([tg.cq_bytes(k) for k in c["q"]]), tg.cq_list(obs))
 
 
-def model_compare(ctx, toy, shard=250):
-    """toy: list of (case, obs).  Returns (error|None, list of mismatching indices)."""
+def model_compare(ctx, toy, shard=60):
+    """Kernel-side evaluation (vm_compute) of the model on `toy`: list of (case, obs).
+    Returns (error|None, list of mismatching indices)."""
     bad = []
     for s in range(0, len(toy), shard):
         part = toy[s:s + shard]
@@ -109,6 +110,24 @@ def model_compare(ctx, toy, shard=250):
     return None, bad
 
 
+def model_compare_extracted(ctx, toy):
+    """The same comparison through the extracted model (OCaml driver), for volume."""
+    exe, err = tg.build_driver(ctx)
+    if err:
+        return err, []
+    lines = ["T -", "T 010203ff00"]
+    for c, o in toy:
+        lines += tg.driver_case_text(c, o)
+        lines.append("E")
+    out = [l for l in tg.run_driver(ctx, exe, "\n".join(lines) + "\n") if l]
+    if len(out) != len(toy) + 2:
+        return "model driver returned %d lines for %d cases" % (len(out), len(toy)), []
+    if toy and (out[0] != toy[0][1]["toyvec0"] or out[1] != toy[0][1]["toyvec1"]):
+        return "toy hash test vectors differ between Go and the OCaml driver", []
+    bad = [i for i, l in enumerate(out[2:]) if l != "ok"]
+    return None, bad
+
+
 def parse_all(out):
     import re
     flat = " ".join(out.split())
@@ -129,7 +148,7 @@ def predicates(cases, obs):
     by_map = {}
     for c, o in zip(cases, obs):
         if o.get("err"):
-            fails.append(("error", "trie operation failed: " + o["err"], slim(c)))
+            fails.append((classify_error(c, o), "trie operation failed: " + o["err"], slim(c)))
             continue
         maps = tg.map_after(c)
         for i, m in enumerate(maps):
@@ -162,6 +181,25 @@ def predicates(cases, obs):
     return fails
 
 
+def classify_error(c, o):
+    """Known class F21(trie): a sole root shortcut (height 256) is pushed down to height 0 by a
+    second Update that was not preceded by a Commit (byte(256) == byte(0)).  Anything else is a
+    plain error (F22/F23(trie) were repaired in /repo; their replays are corpus regression cases)."""
+    import re
+    m = re.search(r"batch (\d+)", o["err"])
+    if m and "unavailable" in o["err"]:
+        i = int(m.group(1))
+        maps = [{}] + tg.map_after(c)
+        for j in range(1, min(i + 1, len(c["batches"]))):
+            if c["batches"][j - 1]["commit"] or len(maps[j]) != 1:
+                continue
+            (k0, v0), = maps[j].items()
+            twin = k0[:-2] + "%02x" % (int(k0[-2:], 16) ^ 1)
+            if twin in maps[j + 1] and maps[j + 1].get(k0) == v0:
+                return "node-lost-height-byte-wrap"
+    return "error"
+
+
 def classify(c, o):
     """non-trivial = at least one delete and one insert overall, >= 2 live keys at some point"""
     maps = tg.map_after(c)
@@ -184,13 +222,25 @@ def run(ctx):
     obs = [json.loads(l) for l in lines]
     fails = predicates(cases, obs)
     toy = [(c, o) for c, o in zip(cases, obs) if c["hash"] == "toy" and not o.get("err")]
-    err, bad = model_compare(ctx, toy)
+    # kernel evaluation: corpus + a sample; extracted model: everything
+    ksel = [x for x in toy if x[0].get("shape") == "corpus"]
+    rest = [x for x in toy if x[0].get("shape") not in ("corpus", "exh")]
+    ksel += rest[:(25 if ctx.tier == "quick" else 200)]
+    err, bad = model_compare(ctx, ksel)
     corr = None
     if err:
         corr = (err, [])
     elif bad:
-        corr = ("model and implementation differ (root or Get) on %d of %d cases" % (len(bad), len(toy)),
-                [dict(case=slim(toy[i][0]), impl_roots=toy[i][1]["roots"], impl_gets=toy[i][1]["gets"]) for i in bad[:3]])
+        corr = ("model (vm_compute) and implementation differ (root or Get) on %d of %d cases" % (len(bad), len(ksel)),
+                [dict(case=slim(ksel[i][0]), impl_roots=ksel[i][1]["roots"], impl_gets=ksel[i][1]["gets"]) for i in bad[:3]])
+    err2, bad2 = model_compare_extracted(ctx, toy)
+    if err2:
+        corr = corr or (err2, [])
+    elif bad2:
+        bad2.sort(key=lambda i: sum(len(b["k"]) for b in toy[i][0]["batches"]))
+        corr = corr or ("extracted model and implementation differ (root or Get) on %d of %d cases" % (len(bad2), len(toy)),
+                        [dict(case=slim(toy[i][0]), impl_roots=toy[i][1]["roots"], impl_gets=toy[i][1]["gets"]) for i in bad2[:3]])
+    ctx.cov["kernel_evaluated_cases"] = len(ksel)
     # evidence
     nb = sum(len(c["batches"]) for c in cases)
     ctx.cov["evaluations"] = nb
@@ -220,10 +270,11 @@ def run(ctx):
             continue
         seen.add(key)
         ctx.finding("C10:" + key, what, rep)
-    if not pr["ok"] and not fails:
+    hard = [f for f in fails if not ctx.known_match("C10:" + f[0])]
+    if not pr["ok"] and not hard:
         ctx.violation("proof obligation no longer checks: %s" % pr["broken"],
                       {"theorem_or_file": pr["broken"], "log": pr["log"][-3000:]}, no_input=True)
-    if corr and not fails:
+    if corr and not hard:
         ctx.violation("correspondence broken: " + corr[0], {"correspondence": corr[0], "cases": corr[1]}, no_input=True)
 
 
